@@ -1,6 +1,6 @@
 package harness
 
-// C11 trace emission: per step and per denom of the perpetual-enabled pool, the three source records
+// C11 trace emission: per step and per (perpetual-enabled pool, denom), the three source records
 // (amm reserve, perpetual liabilities, perpetual custody) and the accounted pool's TotalTokens /
 // NonAmmPoolTokens as the keepers report them.
 
@@ -13,7 +13,8 @@ import (
 
 type c11Tracer struct {
 	x    *lRun
-	rows map[string][]string
+	rows map[string][]string // "pool id/denom" -> one row per step (Models/AccPool.v is one machine per (pool, denom))
+	keys []string            // in order of first appearance (pools by id, denoms in pool-asset order)
 }
 
 func newC11Tracer(x *lRun) *c11Tracer {
@@ -36,15 +37,19 @@ func (c *c11Tracer) step() {
 			liab, cust, _, _ := pp.GetPerpetualPoolBalances(d)
 			t := sdk.Coins(acc.TotalTokens).AmountOf(d)
 			n := sdk.Coins(acc.NonAmmPoolTokens).AmountOf(d)
-			c.rows[d] = append(c.rows[d], fmt.Sprintf("(%s,%s,%s,%s,%s)", zstr(a.Token.Amount.BigInt()), zstr(liab.BigInt()), zstr(cust.BigInt()), zstr(t.BigInt()), zstr(n.BigInt())))
+			k := fmt.Sprintf("%d/%s", pp.AmmPoolId, d)
+			if _, ok := c.rows[k]; !ok {
+				c.keys = append(c.keys, k)
+			}
+			c.rows[k] = append(c.rows[k], fmt.Sprintf("(%s,%s,%s,%s,%s)", zstr(a.Token.Amount.BigInt()), zstr(liab.BigInt()), zstr(cust.BigInt()), zstr(t.BigInt()), zstr(n.BigInt())))
 		}
 	}
 }
 
 func (c *c11Tracer) caseText(id int) string {
 	var ds []string
-	for _, d := range []string{USDC, ATOM} {
-		ds = append(ds, "["+strings.Join(c.rows[d], ";\n   ")+"]")
+	for _, k := range c.keys {
+		ds = append(ds, "["+strings.Join(c.rows[k], ";\n   ")+"]")
 	}
 	return fmt.Sprintf("mkAC %d [\n  %s]", id, strings.Join(ds, ";\n  "))
 }
